@@ -54,6 +54,9 @@ class SymBackend(Backend):
         self.ncheck = 0
         self.nchoices = 0
         self.log = []
+        # the truth memo of the real Backend.is_true / is_false is keyed by expression hash: with symbolic constants it is path-dependent
+        self._true_cache.clear()
+        self._false_cache.clear()
 
     # ---- conversion
     def conv(self, e):
@@ -256,6 +259,11 @@ class SymBackend(Backend):
         E.ENG.assume(self.forall(z3.Implies(G, bound)))
         if model_callback is not None:
             model_callback(m)
+        if signed and not z3.is_bool(t):
+            # like BackendZ3._extrema: a signed query answers with the signed reading of the value
+            n = t.size()
+            if v >= (1 << (n - 1)):
+                v = v - (1 << n)
         return v
 
     def min(self, expr, extra_constraints=(), signed=False, solver=None, model_callback=None):
@@ -276,16 +284,20 @@ class SymBackend(Backend):
             vt = z3.Extract(t.size() - 1, 0, E.term(v)) if isinstance(v, E.SInt) else z3.BitVecVal(v, t.size())
         return self.satisfiable(extra_constraints=(*tuple(extra_constraints), t == vt), solver=solver, model_callback=model_callback)
 
-    def is_true(self, e, extra_constraints=(), solver=None, model_callback=None):
+    # is_true / is_false are the REAL Backend.is_true / is_false (memoised per expression hash); only the backend-specific part is the oracle's
+    def convert(self, e):
+        return self.conv(e)
+
+    def _is_true(self, e, extra_constraints=(), solver=None, model_callback=None):
         from pysym import engine as E
 
         # BackendZ3._is_true: z3.simplify(e) is literally true - a property of the expression alone
-        return bool(E.ENG.branch(self.forall(self.conv(e))))
+        return bool(E.ENG.branch(self.forall(e)))
 
-    def is_false(self, e, extra_constraints=(), solver=None, model_callback=None):
+    def _is_false(self, e, extra_constraints=(), solver=None, model_callback=None):
         from pysym import engine as E
 
-        return bool(E.ENG.branch(self.forall(z3.Not(self.conv(e)))))
+        return bool(E.ENG.branch(self.forall(z3.Not(e))))
 
     def has_true(self, e, extra_constraints=(), solver=None, model_callback=None):
         return self.is_true(e)
